@@ -111,16 +111,16 @@ int main(int argc, char **argv)
 	int have_gfni = (host.ecx7 & C7C_GFNI) && (host.ebx7 & C7B_AVX2);
 	if (!have_gfni)
 		v_note("host lacks GFNI: the GFNI matrices are checked against the software model of GF2P8AFFINEQB only");
-	/* grid = (k, rows, coefficient content): content 0 = all 256 values in turn; 1 = a wide local-parity row (zeros, from column 256 on
+	/* grid = (k, rows, coefficient content): content 4 = more than 65536 coefficients with a value that first occurs beyond entry 65536 and repeats; content 0 = all 256 values in turn; 1 = a wide local-parity row (zeros, from column 256 on
 	 * ones); 2 = four distinct values repeating everywhere; 3 = one constant. k beyond 256 is legal (k is an int) even though no
 	 * MDS code needs it: an implementation may not key anything on the column index fitting a byte. */
 	static const int grid[][3] = { { 1, 1, 0 }, { 1, 256, 0 }, { 256, 1, 0 }, { 16, 16, 0 }, { 3, 85, 0 }, { 85, 3, 0 }, { 10, 4, 0 }, { 255, 255, 0 },
-				       { 300, 2, 1 }, { 300, 2, 2 }, { 258, 3, 0 }, { 520, 1, 2 }, { 1024, 2, 1 }, { 255, 3, 2 }, { 64, 5, 3 }, { 700, 3, 0 } };
+				       { 300, 2, 1 }, { 300, 2, 2 }, { 258, 3, 0 }, { 520, 1, 2 }, { 1024, 2, 1 }, { 255, 3, 2 }, { 64, 5, 3 }, { 700, 3, 0 }, { 260, 260, 4 }, { 300, 250, 4 } };
 	for (unsigned g = 0; g < sizeof grid / sizeof grid[0]; g++) {
 		if (!v_mine(g))
 			continue;
 		int k = grid[g][0], rows = grid[g][1], content = grid[g][2];
-#define COEF(i) (uint8_t)(content == 0 ? (i) * 7 + g * 13 + ((i) >> 8) : content == 1 ? ((i) % k < 256 ? 0 : 1 + ((i) / k)) : content == 2 ? 0x1d * ((((i) % k) * ((i) % k) >> 3) & 3) : 0x8e)
+#define COEF(i) (uint8_t)(content == 0 ? (i) * 7 + g * 13 + ((i) >> 8) : content == 1 ? ((i) % k < 256 ? 0 : 1 + ((i) / k)) : content == 2 ? 0x1d * ((((i) % k) * ((i) % k) >> 3) & 3) : content == 4 ? ((i) == 66000 || (i) == 66500 || (i) == 70001 || (i) + 1 == (size_t)k * rows ? 0xE7 : (i) % 199) : 0x8e)
 		size_t n = (size_t)k * rows;
 		uint8_t *a = malloc(n), *t = g_alloc(n * 32, G_END), *t8 = g_alloc(n * 8, G_END);
 		/* the same grid with the table block at odd addresses (ec_init_tables_base and the dispatched builder) */
